@@ -814,7 +814,9 @@ class BosonicModes:
                 raise ValueError("Cannot apply measurement, mode does not exist")
 
             Idmat = self.hbar * np.eye(2) / 2
-            vacuum_fidelity = np.abs(self.fidelity_vacuum(modes))
+            # sums over many components carry rounding noise: a mode in vacuum can come out as 1 + 4e-15,
+            # and np.random.choice rejects the probability vector [1 + 4e-15, -4e-15]
+            vacuum_fidelity = min(1.0, np.abs(self.fidelity_vacuum(modes)))
             measurement = np.random.choice((0, 1), p=[vacuum_fidelity, 1 - vacuum_fidelity])
             samples = measurement
 
